@@ -272,6 +272,33 @@ pub fn check(c: &FragCase, obs: &mut Obs) -> Check {
             continue;
         }
         let Some(l) = bary(t, centre) else { continue };
+        // local thickness of the triangle through this pixel centre (along the row and along the column): towards a thin
+        // triangle's apex it goes to zero, and with it the accuracy of "where across the triangle" the fragment lies
+        let steep = if well_shaped {
+            0.0
+        } else {
+            let extent = |axis: usize| -> f64 {
+                let o = 1 - axis;
+                let mut v: Vec<f64> = vec![];
+                for k in 0..3 {
+                    let (p, q) = (t[k], t[(k + 1) % 3]);
+                    if (p[o] - centre[o]) * (q[o] - centre[o]) <= 0.0 && p[o] != q[o] {
+                        v.push(p[axis] + (q[axis] - p[axis]) * (centre[o] - p[o]) / (q[o] - p[o]));
+                    }
+                }
+                if v.len() < 2 {
+                    return 0.0;
+                }
+                v.iter().cloned().fold(f64::MIN, f64::max) - v.iter().cloned().fold(f64::MAX, f64::min)
+            };
+            let thick = extent(0).min(extent(1));
+            let local = if thick > 0.0 { 2.0 * pos_err * zratio / thick } else { f64::INFINITY };
+            steep.max(local)
+        };
+        if steep > 1.0 {
+            obs.class_n("fragments-near-an-apex(finite-only)", 1);
+            continue;
+        }
         let pz = plane_at(t, z, l);
         let ztol = (0.005 * zr + round_floor * zmag) * factor + steep * zr;
         let ez = (f.pos[2] as f64 - pz).abs();
